@@ -357,6 +357,802 @@ fn oracle(a: &Value, b: &Value) -> Rel {
         (V::IpNetwork(x), V::IpNetwork(y)) => opt(x, y, |p, q| bits((p.ip(), p.prefix()), (q.ip(), q.prefix()))),
         (V::MacAddress(x), V::MacAddress(y)) => opt(x, y, |p, q| bits(p.bytes(), q.bytes())),
         // different variants
-        _ => Rel::Diff,
+        _ => {
+            assert!(variant_name(a) != variant_name(b), "oracle: no arm for variant {}", variant_name(a));
+            Rel::Diff
+        }
+    }
+}
+
+// ---------------------------------------------------------------------------
+// The pool
+// ---------------------------------------------------------------------------
+
+fn f32_pool() -> Vec<f32> {
+    let q = f32::NAN.to_bits();
+    vec![
+        0.0,
+        -0.0,
+        1.0,
+        -1.0,
+        f32::INFINITY,
+        f32::NEG_INFINITY,
+        f32::NAN,
+        f32::from_bits(q | 0x8000_0000),
+        f32::from_bits(q | 1),
+        f32::from_bits(0x7f80_0001),
+        f32::from_bits(0xff80_0055),
+        f32::from_bits(1),
+        f32::from_bits(0x8000_0001),
+        f32::MIN_POSITIVE,
+        f32::MAX,
+        0.1,
+    ]
+}
+
+fn f64_pool() -> Vec<f64> {
+    let q = f64::NAN.to_bits();
+    vec![
+        0.0,
+        -0.0,
+        1.0,
+        -1.0,
+        f64::INFINITY,
+        f64::NEG_INFINITY,
+        f64::NAN,
+        f64::from_bits(q | (1 << 63)),
+        f64::from_bits(q | 1),
+        f64::from_bits(0x7ff0_0000_0000_0001),
+        f64::from_bits(0xfff0_0000_0000_0055),
+        f64::from_bits(1),
+        f64::from_bits((1 << 63) | 1),
+        f64::MIN_POSITIVE,
+        f64::MAX,
+        0.1,
+    ]
+}
+
+/// JSON object with the given keys inserted in the given order
+fn obj(pairs: &[(&str, J)]) -> J {
+    let mut m = serde_json::Map::new();
+    for (k, v) in pairs {
+        m.insert((*k).to_string(), v.clone());
+    }
+    J::Object(m)
+}
+
+fn json_pool() -> Vec<J> {
+    let nested_ab = obj(&[("a", obj(&[("x", json!([1, {"y": null}])), ("w", json!(2))])), ("b", json!("t"))]);
+    let nested_ba = obj(&[("b", json!("t")), ("a", obj(&[("w", json!(2)), ("x", json!([1, {"y": null}]))]))]);
+    vec![
+        J::Null,
+        json!(true),
+        json!(false),
+        json!(1),
+        json!(1.0),
+        json!(-1),
+        json!(0),
+        json!(0.0),
+        json!(-0.0),
+        json!("1"),
+        json!(""),
+        json!("null"),
+        json!([]),
+        json!({}),
+        json!([1]),
+        json!([1.0]),
+        json!([1, 2]),
+        json!([2, 1]),
+        obj(&[("a", json!(1)), ("b", json!(2))]),
+        obj(&[("b", json!(2)), ("a", json!(1))]),
+        obj(&[("a", json!(1.0)), ("b", json!(2))]),
+        obj(&[("a", json!(2)), ("b", json!(1))]),
+        nested_ab,
+        nested_ba,
+        json!(u64::MAX),
+        json!(i64::MIN),
+        json!(1e308),
+        json!(1e-7),
+        json!(0.0000001),
+        json!([null]),
+        json!({"": null}),
+    ]
+}
+
+fn build_pool() -> Vec<Value> {
+    use Value as V;
+    let mut p: Vec<Value> = vec![];
+    // booleans and integers ("all optional types": NULLs come from None::<T>)
+    p.extend([V::from(None::<bool>), true.into(), false.into(), Some(true).into()]);
+    macro_rules! ints {
+        ($t:ty) => {
+            p.push(V::from(None::<$t>));
+            for x in [0 as $t, 1, <$t>::MAX, <$t>::MIN, <$t>::MAX - 1, 2] {
+                p.push(x.into());
+            }
+        };
+    }
+    ints!(i8);
+    ints!(i16);
+    ints!(i32);
+    ints!(i64);
+    ints!(u8);
+    ints!(u16);
+    ints!(u32);
+    ints!(u64);
+    p.push(V::from(None::<f32>));
+    p.extend(f32_pool().into_iter().map(V::from));
+    p.push(V::from(None::<f64>));
+    p.extend(f64_pool().into_iter().map(V::from));
+    // strings, chars, bytes
+    p.push(V::from(None::<String>));
+    for s in ["", "a", "A", "a\0", "é", "e\u{301}", "1", "null", "a "] {
+        p.push(s.into());
+    }
+    p.push("x".repeat(5000).into());
+    p.push(V::from(None::<char>));
+    for c in ['a', 'A', '\0', 'é', '1', '\u{10FFFF}'] {
+        p.push(c.into());
+    }
+    p.push(V::from(None::<Vec<u8>>));
+    for b in [&b""[..], b"\0", b"a", b"\0\0", b"\xff", b"1"] {
+        p.push(b.into());
+    }
+    // json
+    p.push(V::from(None::<J>));
+    p.extend(json_pool().into_iter().map(V::from));
+    // chrono
+    let d = |y, m, dd| chrono::NaiveDate::from_ymd_opt(y, m, dd).unwrap();
+    let t = |s, n| chrono::NaiveTime::from_num_seconds_from_midnight_opt(s, n).unwrap();
+    p.push(V::from(None::<chrono::NaiveDate>));
+    for x in [chrono::NaiveDate::default(), d(2020, 1, 1), d(2020, 1, 2), chrono::NaiveDate::MIN, chrono::NaiveDate::MAX] {
+        p.push(x.into());
+    }
+    p.push(V::from(None::<chrono::NaiveTime>));
+    for x in [t(0, 0), t(43_200, 0), t(86_399, 999_999_999), t(86_399, 1_000_000_000), t(86_399, 0), t(0, 1)] {
+        p.push(x.into());
+    }
+    p.push(V::from(None::<chrono::NaiveDateTime>));
+    for x in [chrono::NaiveDateTime::default(), d(2020, 1, 1).and_time(t(0, 0)), d(2020, 1, 1).and_time(t(0, 1)), d(2020, 1, 2).and_time(t(0, 0))] {
+        p.push(x.into());
+    }
+    let epoch = chrono::NaiveDateTime::default();
+    let y2020 = d(2020, 1, 1).and_time(t(7322, 0));
+    p.push(V::from(None::<chrono::DateTime<chrono::Utc>>));
+    for x in [epoch, y2020, d(2020, 1, 1).and_time(t(7322, 1))] {
+        p.push(chrono::Utc.from_utc_datetime(&x).into());
+    }
+    p.push(V::from(None::<chrono::DateTime<chrono::Local>>));
+    for x in [epoch, y2020] {
+        p.push(chrono::Local.from_utc_datetime(&x).into());
+    }
+    p.push(V::from(None::<chrono::DateTime<chrono::FixedOffset>>));
+    let east = |s| chrono::FixedOffset::east_opt(s).unwrap();
+    p.push(east(0).from_utc_datetime(&epoch).into());
+    p.push(east(8 * 3600).from_utc_datetime(&epoch).into()); // same instant, other offset
+    p.push(east(8 * 3600).from_local_datetime(&epoch).unwrap().into()); // same wall clock, other instant
+    p.push(east(8 * 3600).from_utc_datetime(&y2020).into());
+    p.push(east(-5 * 3600).from_utc_datetime(&y2020).into());
+    p.push(east(1).from_utc_datetime(&y2020).into());
+    // time
+    let td = |y, o| time::Date::from_ordinal_date(y, o).unwrap();
+    let tt = |h, m, s, n| time::Time::from_hms_nano(h, m, s, n).unwrap();
+    p.push(V::from(None::<time::Date>));
+    for x in [time::Date::MIN, time::Date::MAX, td(2020, 1), td(1970, 1), td(2020, 2)] {
+        p.push(x.into());
+    }
+    p.push(V::from(None::<time::Time>));
+    for x in [time::Time::MIDNIGHT, tt(12, 0, 0, 0), tt(23, 59, 59, 999_999_999), tt(0, 0, 0, 1)] {
+        p.push(x.into());
+    }
+    p.push(V::from(None::<time::PrimitiveDateTime>));
+    for x in [
+        time::PrimitiveDateTime::MIN,
+        time::PrimitiveDateTime::new(td(2020, 1), tt(2, 2, 2, 0)),
+        time::PrimitiveDateTime::new(td(2020, 1), tt(2, 2, 2, 1)),
+        time::PrimitiveDateTime::MAX,
+    ] {
+        p.push(x.into());
+    }
+    p.push(V::from(None::<time::OffsetDateTime>));
+    let off = |s| time::UtcOffset::from_whole_seconds(s).unwrap();
+    let base = time::PrimitiveDateTime::new(td(2020, 1), tt(2, 2, 2, 0));
+    p.push(time::OffsetDateTime::UNIX_EPOCH.into());
+    p.push(time::OffsetDateTime::UNIX_EPOCH.to_offset(off(8 * 3600)).into()); // same instant
+    p.push(time::PrimitiveDateTime::new(td(1970, 1), time::Time::MIDNIGHT).assume_offset(off(8 * 3600)).into());
+    p.push(base.assume_utc().into());
+    p.push(base.assume_utc().to_offset(off(-5 * 3600)).into());
+    p.push(base.assume_offset(off(1)).into());
+    // uuid / decimals
+    p.push(V::from(None::<uuid::Uuid>));
+    for x in [0u128, u128::MAX, 0x936DA01F_9ABD_4D9D_80C7_02AF85C822A8, 1, 1 << 127] {
+        p.push(uuid::Uuid::from_u128(x).into());
+    }
+    p.push(uuid::Uuid::from_u128(1).braced().into()); // same payload through another Rust type
+    p.push(V::from(None::<rust_decimal::Decimal>));
+    {
+        use rust_decimal::Decimal as D;
+        for x in [
+            D::ZERO,
+            D::from_parts(0, 0, 0, true, 0),
+            D::from_parts(0, 0, 0, false, 2),
+            D::from_parts(0, 0, 0, true, 28),
+            D::ONE,
+            D::from_parts(10, 0, 0, false, 1),
+            D::from_parts(100, 0, 0, false, 2),
+            D::from_parts(1, 0, 0, true, 0),
+            D::from_parts(1, 0, 0, false, 1),
+            D::from_parts(10, 0, 0, false, 2),
+            D::from_parts(1, 0, 0, false, 28),
+            D::MAX,
+            D::MIN,
+            D::from_parts(0, 0, 1, false, 0),
+            D::from_parts(0, 0, 10, false, 1),
+        ] {
+            p.push(x.into());
+        }
+    }
+    p.push(V::from(None::<bigdecimal::BigDecimal>));
+    {
+        use bigdecimal::num_bigint::BigInt;
+        let b = |i: i64, s: i64| bigdecimal::BigDecimal::new(BigInt::from(i), s);
+        for x in [
+            b(0, 0),
+            b(0, 5),
+            b(0, -3),
+            b(1, 0),
+            b(10, 1),
+            b(100, 2),
+            b(1, -2),
+            b(100, 0),
+            b(10, -1),
+            b(-1, 0),
+            b(-10, 1),
+            b(1, 1),
+            b(10, 2),
+            b(15, 1),
+            b(15, 0),
+            b(i64::MAX, 40),
+        ] {
+            p.push(x.into());
+        }
+        p.push(bigdecimal::BigDecimal::new(BigInt::from(i64::MAX) * BigInt::from(i64::MAX) * BigInt::from(1000), 3).into());
+        p.push(bigdecimal::BigDecimal::new(BigInt::from(i64::MAX) * BigInt::from(i64::MAX), 0).into());
+    }
+    // vector
+    p.push(V::from(None::<pgvector::Vector>));
+    let vecs: Vec<Vec<f32>> = vec![
+        vec![],
+        vec![0.0],
+        vec![-0.0],
+        vec![f32::NAN],
+        vec![f32::from_bits(0xffc0_0000)],
+        vec![f32::from_bits(0x7f80_0001)],
+        vec![1.0],
+        vec![1.0, 2.0],
+        vec![2.0, 1.0],
+        vec![1.0, 2.0, 3.0],
+        vec![f32::INFINITY],
+        vec![f32::NEG_INFINITY],
+        vec![f32::from_bits(1)],
+        vec![0.0, 0.0],
+        vec![0.0, -0.0],
+        vec![f32::NAN, 1.0],
+        vec![1.0, f32::NAN],
+    ];
+    p.extend(vecs.into_iter().map(|v| V::from(pgvector::Vector::from(v))));
+    // net
+    p.push(V::from(None::<ipnetwork::IpNetwork>));
+    for s in ["0.0.0.0/32", "0.0.0.0/0", "10.1.2.3/8", "10.0.0.0/8", "10.1.2.3/32", "::/128", "::/0", "::ffff:10.1.2.3/128", "::a01:203/128"] {
+        p.push(s.parse::<ipnetwork::IpNetwork>().unwrap().into());
+    }
+    p.push(V::from(None::<mac_address::MacAddress>));
+    for b in [[0u8; 6], [0xff; 6], [1, 2, 3, 4, 5, 6], [6, 5, 4, 3, 2, 1]] {
+        p.push(mac_address::MacAddress::new(b).into());
+    }
+
+    // arrays: every ArrayType with NULL, empty, [e], [e, NULL], [NULL], [e2, e]
+    let scalars = p.clone();
+    for ty in all_array_types() {
+        let elems: Vec<Value> = scalars.iter().filter(|v| variant_name(v) == array_name(&ty) && !is_null(v)).cloned().collect();
+        p.push(V::Array(ty.clone(), None));
+        p.push(V::Array(ty.clone(), Some(Box::new(vec![]))));
+        if let Some(e) = elems.first() {
+            p.push(V::Array(ty.clone(), Some(Box::new(vec![e.clone()]))));
+            p.push(V::Array(ty.clone(), Some(Box::new(vec![e.clone(), e.as_null()]))));
+            p.push(V::Array(ty.clone(), Some(Box::new(vec![e.as_null()]))));
+            if let Some(e2) = elems.get(1) {
+                p.push(V::Array(ty.clone(), Some(Box::new(vec![e2.clone(), e.clone()]))));
+                p.push(V::Array(ty.clone(), Some(Box::new(vec![e.clone(), e2.clone()]))));
+            }
+        }
+    }
+    // floats inside arrays (typed construction through Vec<T>)
+    for x in [vec![f32::NAN], vec![f32::from_bits(0xffc0_0001)], vec![0.0], vec![-0.0], vec![1.0, f32::NAN], vec![f32::from_bits(1)]] {
+        p.push(x.into());
+    }
+    for x in [vec![f64::NAN], vec![f64::from_bits(0xfff8_0000_0000_0001)], vec![0.0], vec![-0.0], vec![1.0, f64::NAN], vec![f64::from_bits(1)]] {
+        p.push(x.into());
+    }
+    // same elements under different ArrayType, nested arrays, JSON order inside arrays
+    let one = V::Int(Some(1));
+    for ty in [ArrayType::Int, ArrayType::BigInt, ArrayType::Unsigned, ArrayType::String] {
+        p.push(V::Array(ty, Some(Box::new(vec![one.clone()]))));
+    }
+    let inner = |ty: ArrayType| V::Array(ty, Some(Box::new(vec![one.clone()])));
+    p.push(V::Array(ArrayType::Int, Some(Box::new(vec![inner(ArrayType::Int)]))));
+    p.push(V::Array(ArrayType::Int, Some(Box::new(vec![inner(ArrayType::BigInt)]))));
+    p.push(V::Array(ArrayType::Int, Some(Box::new(vec![V::Array(ArrayType::Int, None)]))));
+    p.push(V::Array(ArrayType::Int, Some(Box::new(vec![V::Array(ArrayType::Int, Some(Box::new(vec![])))]))));
+    let jp = json_pool();
+    p.push(vec![jp[18].clone(), jp[22].clone()].into());
+    p.push(vec![jp[19].clone(), jp[23].clone()].into());
+    p.push(vec![jp[3].clone()].into());
+    p.push(vec![jp[4].clone()].into());
+    p
+}
+
+// ---------------------------------------------------------------------------
+// Checks
+// ---------------------------------------------------------------------------
+
+struct Uf(Vec<usize>);
+impl Uf {
+    fn new(n: usize) -> Self {
+        Uf((0..n).collect())
+    }
+    fn find(&mut self, x: usize) -> usize {
+        let mut r = x;
+        while self.0[r] != r {
+            r = self.0[r];
+        }
+        let mut c = x;
+        while self.0[c] != r {
+            let n = self.0[c];
+            self.0[c] = r;
+            c = n;
+        }
+        r
+    }
+    fn union(&mut self, a: usize, b: usize) {
+        let (a, b) = (self.find(a), self.find(b));
+        if a != b {
+            self.0[a.max(b)] = a.min(b);
+        }
+    }
+    fn classes(&mut self) -> usize {
+        (0..self.0.len()).filter(|i| self.find(*i) == *i).count()
+    }
+}
+
+const TRIPLE_BASE: u64 = 1 << 40;
+const SAMPLE_BASE: u64 = 2 << 40;
+const GROUP_BASE: u64 = 3 << 40;
+const SET_BASE: u64 = 4 << 40;
+
+fn pair_sig(law: &str, a: &Value, b: &Value) -> String {
+    format!("{law} {} / {}", cls(a), cls(b))
+}
+
+fn pair_detail(a: &Value, b: &Value, extra: J) -> J {
+    json!({"a": show_value(a), "b": show_value(b), "a_bits": hex(&enc_v(a)), "b_bits": hex(&enc_v(b)), "observed": extra})
+}
+
+fn hex(b: &[u8]) -> String {
+    let mut s = String::new();
+    for x in b.iter().take(96) {
+        s.push_str(&format!("{x:02x}"));
+    }
+    if b.len() > 96 {
+        s.push('…');
+    }
+    s
+}
+
+fn tuple_pool(pool: &[Value]) -> Vec<ValueTuple> {
+    let n = pool.len();
+    let mut t = vec![];
+    for (i, v) in pool.iter().enumerate() {
+        t.push(ValueTuple::One(v.clone()));
+        if i % 3 == 0 {
+            t.push(ValueTuple::Many(vec![v.clone()]));
+        }
+        if i % 2 == 0 {
+            t.push(ValueTuple::Two(v.clone(), pool[(i + 1) % n].clone()));
+            t.push(ValueTuple::Two(pool[(i + 1) % n].clone(), v.clone()));
+        }
+        if i % 4 == 0 {
+            t.push(ValueTuple::Three(v.clone(), pool[(i + 1) % n].clone(), pool[(i + 2) % n].clone()));
+            t.push(ValueTuple::Many(vec![v.clone(), pool[(i + 1) % n].clone(), pool[(i + 2) % n].clone()]));
+        }
+        if i % 5 == 0 {
+            t.push(ValueTuple::Many((0..4).map(|k| pool[(i + k) % n].clone()).collect()));
+        }
+    }
+    t.push(ValueTuple::Many(vec![]));
+    // float / decimal representations inside tuples
+    for (a, b) in [(0.0f64, -0.0f64), (f64::NAN, f64::from_bits(0xfff8_0000_0000_0001))] {
+        t.push(ValueTuple::Two(a.into(), 1i32.into()));
+        t.push(ValueTuple::Two(b.into(), 1i32.into()));
+        t.push(ValueTuple::Many(vec![a.into(), b.into(), a.into(), b.into()]));
+        t.push(ValueTuple::Many(vec![b.into(), a.into(), b.into(), a.into()]));
+    }
+    t
+}
+
+fn vt_cls(t: &ValueTuple) -> String {
+    let items: Vec<&Value> = match t {
+        ValueTuple::One(a) => vec![a],
+        ValueTuple::Two(a, b) => vec![a, b],
+        ValueTuple::Three(a, b, c) => vec![a, b, c],
+        ValueTuple::Many(v) => v.iter().collect(),
+    };
+    let name = match t {
+        ValueTuple::One(_) => "One",
+        ValueTuple::Two(..) => "Two",
+        ValueTuple::Three(..) => "Three",
+        ValueTuple::Many(_) => "Many",
+    };
+    format!("{name}[{}]", items.iter().map(|v| cls(v)).collect::<Vec<_>>().join(", "))
+}
+
+pub fn check(ctx: &Ctx, rep: &mut Report) {
+    // two independently built copies: pair (i, j) compares pool[i] with pool2[j], so even
+    // the diagonal compares separately allocated values
+    let (pool, pool2) = match guard(|| (build_pool(), build_pool())) {
+        Ok(p) => p,
+        Err(p) => {
+            rep.violation("R.panic", "-", format!("pool: {}", panic_sig(&p)), json!({"panic": p}), ctx.shard, 0);
+            return;
+        }
+    };
+    let n = pool.len();
+    if ctx.shard == 0 {
+        rep.max("max_pool_size", n as u64);
+        for v in &pool {
+            rep.note("variants", variant_name(v));
+            rep.note("pool_classes", cls(v));
+            if let Some(a) = array_of(v) {
+                rep.note("array_types", a);
+            }
+        }
+        let seen: HashSet<&str> = pool.iter().map(variant_name).collect();
+        let arr: HashSet<&str> = pool.iter().filter_map(array_of).collect();
+        if seen.len() != ALL_VARIANTS.len() || arr.len() != all_array_types().len() {
+            rep.inconclusive("pool does not cover every variant / ArrayType");
+        }
+        // harness self-check: the two copies are bitwise identical and the oracle is reflexive / symmetric
+        for i in 0..n {
+            if enc_v(&pool[i]) != enc_v(&pool2[i]) || oracle(&pool[i], &pool2[i]) != Rel::Same {
+                rep.inconclusive("pool construction is not deterministic or oracle not reflexive");
+            }
+        }
+    }
+
+    // hashes of every pool value (twice: hashing must be a function of the value)
+    let mut hs: Vec<[u64; 3]> = Vec::with_capacity(n);
+    for (i, v) in pool.iter().enumerate() {
+        match guard(|| (hashes(v), hashes(&pool2[i]), hashes(&v.clone()))) {
+            Ok((h1, h2, h3)) => {
+                if ctx.mine(i as u64 * n as u64 + i as u64) {
+                    for k in 0..3 {
+                        if h1[k] != h2[k] || h1[k] != h3[k] {
+                            rep.violation("R.hash", "-", format!("hash {} unstable for identical {}", HASHERS[k], cls(v)),
+                                pair_detail(v, &pool2[i], json!([h1[k], h2[k], h3[k]])), ctx.shard, (i * n + i) as u64);
+                        }
+                    }
+                }
+                hs.push(h1);
+            }
+            Err(p) => {
+                if ctx.mine(i as u64 * n as u64 + i as u64) {
+                    rep.violation("R.panic", "-", format!("hash {}: {}", cls(v), panic_sig(&p)), json!({"value": show_value(v), "panic": p}), ctx.shard, (i * n + i) as u64);
+                }
+                hs.push([0, 0, 0]);
+            }
+        }
+    }
+
+    // full equality matrix (every shard needs it for the triples); violations are reported by the owner of the pair
+    let mut eq = vec![false; n * n];
+    for i in 0..n {
+        for j in 0..n {
+            let case = (i * n + j) as u64;
+            let (a, b) = (&pool[i], &pool2[j]);
+            let r = guard(|| (a == b, a == b, !(a != b)));
+            let mine = ctx.mine(case);
+            match r {
+                Ok((e1, e2, e3)) => {
+                    eq[i * n + j] = e1;
+                    if mine && (e1 != e2 || e1 != e3) {
+                        rep.violation("R.eq", "-", pair_sig("eq unstable or ne inconsistent", a, b), pair_detail(a, b, json!([e1, e2, e3])), ctx.shard, case);
+                    }
+                }
+                Err(p) => {
+                    if mine {
+                        rep.violation("R.panic", "-", format!("eq {} / {}: {}", cls(a), cls(b), panic_sig(&p)), pair_detail(a, b, json!(p)), ctx.shard, case);
+                    }
+                }
+            }
+        }
+    }
+
+    // --- pair laws -------------------------------------------------------------
+    let mut amb_equal = 0u64;
+    let mut amb_unequal = 0u64;
+    for i in 0..n {
+        for j in 0..n {
+            let case = (i * n + j) as u64;
+            if !ctx.mine(case) {
+                continue;
+            }
+            rep.eval();
+            rep.count("pairs", 1);
+            let (a, b) = (&pool[i], &pool2[j]);
+            let e = eq[i * n + j];
+            // reflexivity
+            if i == j {
+                rep.count("law_reflexivity", 1);
+                if !e {
+                    rep.violation("R.reflexive", "-", format!("reflexivity {}", cls(a)), pair_detail(a, b, json!(e)), ctx.shard, case);
+                }
+                let self_eq = guard(|| {
+                    #[allow(clippy::eq_op)]
+                    let r = a == a;
+                    r
+                });
+                if self_eq != Ok(true) {
+                    rep.violation("R.reflexive", "-", format!("reflexivity (same object) {}", cls(a)), pair_detail(a, a, json!(format!("{self_eq:?}"))), ctx.shard, case);
+                }
+            }
+            // symmetry
+            rep.count("law_symmetry", 1);
+            if e != eq[j * n + i] {
+                rep.violation("R.symmetric", "-", pair_sig("symmetry", a, b), pair_detail(a, b, json!({"a==b": e, "b==a": eq[j * n + i]})), ctx.shard, case);
+            }
+            // variant separation
+            let same_variant = discriminant(a) == discriminant(b);
+            if same_variant != (variant_name(a) == variant_name(b)) {
+                rep.inconclusive("discriminant and variant name disagree");
+            }
+            if !same_variant {
+                rep.count("law_variant_separation", 1);
+                if e {
+                    rep.violation("R.variant", "-", format!("variant-separation {}/{}", variant_name(a), variant_name(b)), pair_detail(a, b, json!(e)), ctx.shard, case);
+                }
+            } else {
+                rep.nontrivial(mix(i as u64, j as u64));
+            }
+            // payload agreement
+            let want = guard(|| oracle(a, b));
+            match want {
+                Ok(Rel::Same) => {
+                    rep.count("law_payload_same", 1);
+                    if !e {
+                        rep.violation("R.payload", "-", pair_sig("equal payloads compare unequal", a, b), pair_detail(a, b, json!(e)), ctx.shard, case);
+                    }
+                }
+                Ok(Rel::Diff) => {
+                    rep.count("law_payload_diff", 1);
+                    if e {
+                        rep.violation("R.payload", "-", pair_sig("different payloads compare equal", a, b), pair_detail(a, b, json!(e)), ctx.shard, case);
+                    }
+                }
+                Ok(Rel::Amb) => {
+                    rep.count("payload_ambiguous_pairs", 1);
+                    if e {
+                        amb_equal += 1;
+                        rep.note("ambiguous_pairs_equal", format!("{} / {}", cls(a), cls(b)));
+                    } else {
+                        amb_unequal += 1;
+                        rep.note("ambiguous_pairs_unequal", format!("{} / {}", cls(a), cls(b)));
+                    }
+                }
+                Err(p) => rep.inconclusive(&format!("oracle panicked: {}", panic_sig(&p))),
+            }
+            // hash agreement
+            if e {
+                rep.count("law_hash_agreement", 1);
+                for k in 0..3 {
+                    if hs[i][k] != hs[j][k] {
+                        rep.violation("R.hash", "-", format!("hash {} {}", HASHERS[k], pair_sig("", a, b).trim_start()), pair_detail(a, b, json!({"hash_a": hs[i][k], "hash_b": hs[j][k]})), ctx.shard, case);
+                    }
+                }
+                if i != j && rep.samples.len() < 3 {
+                    rep.sample(json!({"kind": "equal pair", "a": show_value(a), "b": show_value(b), "hashes": hs[i]}));
+                }
+            } else if same_variant && rep.samples.len() < 5 && (i + j) % 97 == 0 {
+                rep.sample(json!({"kind": "unequal pair of one variant", "a": show_value(a), "b": show_value(b)}));
+            }
+        }
+    }
+    rep.count("ambiguous_pairs_equal", amb_equal);
+    rep.count("ambiguous_pairs_unequal", amb_unequal);
+
+    // --- transitivity -----------------------------------------------------------
+    let mut premise = 0u64;
+    let mut triples = 0u64;
+    let mut triple = |rep: &mut Report, a: usize, b: usize, c: usize, case: u64| {
+        triples += 1;
+        if eq[a * n + b] && eq[b * n + c] {
+            premise += 1;
+            if !eq[a * n + c] {
+                rep.violation("R.transitive", "-", format!("transitivity {} / {} / {}", cls(&pool[a]), cls(&pool[b]), cls(&pool[c])),
+                    json!({"a": show_value(&pool[a]), "b": show_value(&pool[b]), "c": show_value(&pool[c])}), ctx.shard, case);
+            }
+        }
+    };
+    if ctx.quick() {
+        let per = 2_000_000 / ctx.nshards;
+        for k in 0..per {
+            if !ctx.wants(SAMPLE_BASE + k) {
+                continue;
+            }
+            let mut r = ctx.rng("triple", k);
+            // half of the sample is drawn inside one variant, where the premises can hold
+            let a = r.below(n);
+            let (b, c) = if k % 2 == 0 {
+                (r.below(n), r.below(n))
+            } else {
+                let same: Vec<usize> = (0..n).filter(|x| discriminant(&pool[*x]) == discriminant(&pool[a])).collect();
+                (*r.pick(&same), *r.pick(&same))
+            };
+            triple(rep, a, b, c, SAMPLE_BASE + k);
+        }
+    } else {
+        for a in 0..n {
+            if !ctx.mine(TRIPLE_BASE + a as u64) {
+                continue;
+            }
+            for b in 0..n {
+                for c in 0..n {
+                    triple(rep, a, b, c, TRIPLE_BASE + a as u64);
+                }
+            }
+        }
+        if ctx.shard == 0 && ctx.replay.is_none() {
+            rep.exhaustive_parts.push(format!("all {n}^3 triples of the pool for transitivity"));
+        }
+    }
+    // both tiers: every triple inside one variant (the only place where both premises can hold)
+    for a in 0..n {
+        if !ctx.mine(GROUP_BASE + a as u64) {
+            continue;
+        }
+        let same: Vec<usize> = (0..n).filter(|x| discriminant(&pool[*x]) == discriminant(&pool[a])).collect();
+        for &b in &same {
+            for &c in &same {
+                triple(rep, a, b, c, GROUP_BASE + a as u64);
+            }
+        }
+    }
+    rep.count("triples", triples);
+    rep.count("triples_with_both_premises", premise);
+    rep.count("law_transitivity", premise);
+    rep.evaluations += triples;
+    if ctx.shard == 0 && ctx.replay.is_none() {
+        rep.exhaustive_parts.push(format!("all {n}x{n} ordered pairs of the pool; all same-variant triples"));
+    }
+
+    // --- hash sets and maps -------------------------------------------------------
+    if ctx.mine(SET_BASE) {
+        rep.eval();
+        let mut uf = Uf::new(n);
+        for i in 0..n {
+            for j in 0..n {
+                if eq[i * n + j] {
+                    uf.union(i, j);
+                }
+            }
+        }
+        let classes = uf.classes();
+        rep.max("max_value_classes", classes as u64);
+        let r = guard(|| {
+            let mut out: Vec<(String, J)> = vec![];
+            let s1: HashSet<Value> = pool.iter().cloned().collect();
+            let s2: HashSet<Value, BuildHasherDefault<Fnv>> = pool.iter().cloned().collect();
+            let s3: HashSet<Value, BuildHasherDefault<Weak>> = pool.iter().cloned().collect();
+            for (name, len) in [("RandomState", s1.len()), ("Fnv1a", s2.len()), ("WeakSum8", s3.len())] {
+                if len != classes {
+                    out.push((format!("HashSet<Value> ({name}) size differs from the number of equality classes"), json!({"len": len, "classes": classes})));
+                }
+            }
+            for v in pool2.iter() {
+                if !s1.contains(v) || !s2.contains(v) || !s3.contains(v) {
+                    out.push((format!("HashSet<Value> does not contain member {}", cls(v)), json!({"value": show_value(v)})));
+                }
+            }
+            out
+        });
+        match r {
+            Ok(out) => {
+                for (sig, d) in out {
+                    rep.violation("R.set", "-", sig, d, ctx.shard, SET_BASE);
+                }
+            }
+            Err(p) => rep.violation("R.panic", "-", format!("HashSet<Value>: {}", panic_sig(&p)), json!({"panic": p}), ctx.shard, SET_BASE),
+        }
+        rep.count("hashset_members_checked", n as u64);
+    }
+    if ctx.mine(SET_BASE + 1) {
+        rep.eval();
+        let r = guard(|| {
+            let mut out: Vec<(String, J)> = vec![];
+            let ts = tuple_pool(&pool);
+            let ts2 = tuple_pool(&pool2);
+            let m = ts.len();
+            let th: Vec<[u64; 3]> = ts.iter().map(hashes).collect();
+            let mut uf = Uf::new(m);
+            let mut eq_pairs = 0u64;
+            for i in 0..m {
+                for j in 0..m {
+                    let e = ts[i] == ts2[j];
+                    if i == j && !e {
+                        out.push((format!("reflexivity ValueTuple {}", vt_cls(&ts[i])), json!({"tuple": clip_dbg(&ts[i])})));
+                    }
+                    if e != (ts[j] == ts2[i]) {
+                        out.push((format!("symmetry ValueTuple {} / {}", vt_cls(&ts[i]), vt_cls(&ts[j])), json!({})));
+                    }
+                    if e {
+                        eq_pairs += 1;
+                        uf.union(i, j);
+                        for k in 0..3 {
+                            if th[i][k] != th[j][k] {
+                                out.push((format!("hash {} ValueTuple {} / {}", HASHERS[k], vt_cls(&ts[i]), vt_cls(&ts[j])),
+                                    json!({"a": clip_dbg(&ts[i]), "b": clip_dbg(&ts[j])})));
+                            }
+                        }
+                    }
+                }
+            }
+            let classes = uf.classes();
+            let mut m1: HashMap<ValueTuple, usize> = HashMap::new();
+            let mut m2: HashMap<ValueTuple, usize, BuildHasherDefault<Fnv>> = HashMap::default();
+            let mut m3: HashMap<ValueTuple, usize, BuildHasherDefault<Weak>> = HashMap::default();
+            for (i, t) in ts.iter().enumerate() {
+                m1.entry(t.clone()).or_insert(i);
+                m2.entry(t.clone()).or_insert(i);
+                m3.entry(t.clone()).or_insert(i);
+            }
+            for (name, len) in [("RandomState", m1.len()), ("Fnv1a", m2.len()), ("WeakSum8", m3.len())] {
+                if len != classes {
+                    out.push((format!("HashMap<ValueTuple,_> ({name}) size differs from the number of equality classes"), json!({"len": len, "classes": classes})));
+                }
+            }
+            for (i, t) in ts2.iter().enumerate() {
+                for got in [m1.get(t), m2.get(t), m3.get(t)] {
+                    match got {
+                        Some(k) if uf.find(*k) == uf.find(i) => {}
+                        Some(_) => out.push((format!("HashMap<ValueTuple,_> finds another class for {}", vt_cls(t)), json!({}))),
+                        None => out.push((format!("HashMap<ValueTuple,_> does not find key {}", vt_cls(t)), json!({"key": clip_dbg(t)}))),
+                    }
+                }
+            }
+            (out, m, classes, eq_pairs)
+        });
+        match r {
+            Ok((out, m, classes, eq_pairs)) => {
+                for (sig, d) in out {
+                    rep.violation("R.map", "-", sig, d, ctx.shard, SET_BASE + 1);
+                }
+                rep.max("max_tuple_pool_size", m as u64);
+                rep.max("max_tuple_classes", classes as u64);
+                rep.count("tuple_pairs", (m * m) as u64);
+                rep.count("tuple_pairs_equal", eq_pairs);
+                rep.count("hashmap_keys_checked", m as u64);
+            }
+            Err(p) => rep.violation("R.panic", "-", format!("HashMap<ValueTuple,_>: {}", panic_sig(&p)), json!({"panic": p}), ctx.shard, SET_BASE + 1),
+        }
+    }
+}
+
+fn clip_dbg<T: std::fmt::Debug>(t: &T) -> String {
+    let s = format!("{t:?}");
+    if s.chars().count() > 200 {
+        let mut c: String = s.chars().take(200).collect();
+        c.push('…');
+        c
+    } else {
+        s
     }
 }
